@@ -535,6 +535,16 @@ def c15(tapes, params):
         class UCMM(w.m['ucmm'].UCMM):
             route_path = ucmm_route
         ucls = UCMM
+    # a configuration file may carry a [UCMM] Route Path as well; what the command line (or the UCMM
+    # class) says wins, the file only fills in when nothing was said.  (The file's content is put into
+    # the simulator's config loader directly, as if it had been read: no files are written.)
+    if g.chance(1, 4, 'cfgfile'):
+        cp, cl = g.choice([(1, 0), (1, 5), (2, 3)], 'cfgroute')
+        w.m['device'].Object.config_loader.read_string('[UCMM]\nRoute Path = %d/%d\n' % (cp, cl))
+        if kind == 'none':
+            kind, conf = 'route', [(cp, cl)]
+        argv = list(argv)
+        w.notes['config_file_route'] = '%d/%d' % (cp, cl)
     w.start_server(extra_argv=argv, UCMM_class=ucls)
     unique = {'n': 0}
     stats = {'accepted': 0, 'refused': 0}
@@ -819,9 +829,14 @@ def client_side(w, sch, params, items, r1, s0_real, s0_model, other_sid, main_ta
         apply_items(w, items)
         # framing-level equality with the reference replies
         for i, (rsp, f) in enumerate(zip(got, r1)):
-            e = rsp.enip
-            mine = (e.command, e.status, bytes(bytearray(e.sender_context.input)), e.length,
-                    bytes(bytearray(e.get('input', b''))))
+            try:
+                e = rsp['enip']
+                mine = (e.command, e.status, bytes(bytearray(e.sender_context.input)), e.length,
+                        bytes(bytearray(e.get('input', b''))))
+            except (KeyError, AttributeError, TypeError) as exc:
+                w.violation('c02-client-frame-content', 'cpppo client (%s): reply %d came back without its parsed frame (%s: %s): %r; the bytes were %s' % (
+                    attempt, i, type(exc).__name__, exc, dict(rsp) if hasattr(rsp, 'keys') else rsp, f.raw.hex()[:120]), chunks=attempt)
+                raise Violation()
             ref = (f.command, f.status, f.context, len(f.raw) - 24, f.raw[24:])
             if mine != ref:
                 w.violation('c02-client-frame-content', 'cpppo client (%s): reply %d parsed as %r, the bytes were %s' % (
